@@ -1781,7 +1781,15 @@ fn plan_trader(w: &World, knobs: &Knobs, actor: &mut Actor, l: &Ledger) -> Vec<(
             }
         }
         if let Some((sa, args)) = chosen {
-            let sx = if v2 { ix::swap_v2(&sa, &args, &[]) } else { ix::swap(&sa, &args) };
+            // v2: sometimes with supplemental tick arrays (any arrays of the pool, in any order, up to three)
+            let mut supp: Vec<Pubkey> = Vec::new();
+            if v2 && rng.chance(1, 3) {
+                let mut all: Vec<Pubkey> = decode::tick_arrays_of_pool(l, &sa.pool.whirlpool).into_iter().map(|(k, _)| k).collect();
+                rng.shuffle(&mut all);
+                all.truncate(1 + rng.below(3) as usize);
+                supp = all;
+            }
+            let sx = if v2 { ix::swap_v2(&sa, &args, &supp) } else { ix::swap(&sa, &args) };
             flow.push((tx1(sx), if v2 { "swap_v2".to_string() } else { "swap".to_string() }));
         }
     }
